@@ -75,8 +75,37 @@ class _Sink(io.TextIOBase):
         return len(s)
 
 
-ENV_MODES = {'O': ['-O'], 'Werror': [], 'Threads': []}   # Werror: the -W error filter around each run; Threads: sim/duo.py
-ENV_MODE_TEXT = {'O': 'interpreter started with -O', 'Werror': 'warnings raised as errors (-W error)',
+class _DebugLogging:
+    """The process configuration logging.basicConfig(level=logging.DEBUG), with a handler that formats
+    every record and keeps nothing; restores the previous configuration on exit."""
+
+    def __enter__(self):
+        import logging
+
+        class H(logging.Handler):
+            n = 0
+
+            def emit(self, record):
+                H.n += len(record.getMessage())      # formatting errors surface where the record is logged
+        self.root = logging.getLogger()
+        self.h = H(level=logging.DEBUG)
+        self.old_level = self.root.level
+        self.old_disable = logging.root.manager.disable
+        self.root.addHandler(self.h)
+        self.root.setLevel(logging.DEBUG)
+        logging.disable(logging.NOTSET)
+        return self
+
+    def __exit__(self, *exc):
+        import logging
+        self.root.removeHandler(self.h)
+        self.root.setLevel(self.old_level)
+        logging.disable(self.old_disable)
+        return False
+
+
+ENV_MODES = {'O': ['-OO'], 'Werror': [], 'Threads': []}   # Werror: the -W error filter around each run; Threads: sim/duo.py
+ENV_MODE_TEXT = {'O': 'interpreter started with -OO (assert statements and docstrings stripped)', 'Werror': 'warnings raised as errors (-W error) and every logger at DEBUG',
                  'Threads': 'a second caller thread interleaved at library lines by a seeded scheduler'}
 
 
@@ -90,8 +119,50 @@ def _short(r):
     return t if len(t) <= 90 else t[:60] + '...' + t[-20:]
 
 
+class RemoteCtx:
+    """The outcome of a run that took place in another interpreter (same interface as Ctx, read-only)."""
+
+    def __init__(self, d):
+        from .kernel import Violation
+        self._digest, self._shape = d['digest'], d['shape']
+        self.stats = Counter(d['stats'])
+        self.violations = [Violation(v['clause'], v['message'], v['step'], v['detail']) for v in d['violations']]
+        self.known_hits = Counter(d['known_hits'])
+        self.other_prop = Counter(d['other_prop'])
+        self.carried, self.sim_seconds, self.steps = d['carried'], d['sim_seconds'], d['steps']
+        self.capped, self.nontrivial, self.lines = d['capped'], d['nontrivial'], d['lines']
+
+    def digest(self):
+        return self._digest
+
+    def shape(self):
+        return self._shape
+
+
+def ctx_as_dict(ctx):
+    return {'digest': ctx.digest(), 'shape': ctx.shape(), 'stats': dict(ctx.stats), 'violations': [v.as_dict() for v in ctx.violations],
+            'known_hits': dict(ctx.known_hits), 'other_prop': dict(ctx.other_prop), 'carried': ctx.carried, 'sim_seconds': ctx.sim_seconds,
+            'steps': ctx.steps, 'capped': ctx.capped, 'nontrivial': ctx.nontrivial, 'lines': ctx.lines}
+
+
+def _execute_in_fresh_interpreter(plan, prop, keep_trace):
+    """Process histories that begin before the library is loaded (which chain is selected when its modules are
+    first imported, which of them are imported first) cannot be staged in a process that has it loaded: the plan
+    is handed to a new interpreter, which arranges that beginning and then executes the plan as usual."""
+    vf = os.path.join(os.path.dirname(os.path.dirname(os.path.abspath(__file__))), 'vf')
+    env = dict(os.environ, VERIF_IN_FRESH='1')
+    env.setdefault('PYTHONHASHSEED', '0')
+    pr = subprocess.run([sys.executable] + (['-OO'] if sys.flags.optimize else []) + [vf, 'exec-plan', prop] + (['--trace'] if keep_trace else []),
+                        input=json.dumps(plan, default=str), capture_output=True, text=True, env=env, timeout=600)
+    if pr.returncode != 0:
+        raise HarnessError('fresh interpreter for a process-history plan failed (rc=%s): %s' % (pr.returncode, (pr.stderr or pr.stdout)[-600:]))
+    return RemoteCtx(json.loads(pr.stdout.splitlines()[-1]))
+
+
 def execute_plan(engine, plan, prop, known, keep_trace=False):
     """One execution.  Returns the Ctx.  Harness exceptions propagate."""
+    if (plan.get('config') or {}).get('fresh_process') and os.environ.get('VERIF_IN_FRESH') != '1':
+        return _execute_in_fresh_interpreter(plan, prop, keep_trace)
     ctx = Ctx([prop], known, keep_trace)
     sink = _Sink()
     if pymode() == 'Werror':
@@ -100,11 +171,15 @@ def execute_plan(engine, plan, prop, known, keep_trace=False):
         from . import seams as _seams
         _seams.lib()
         import http.client, json, decimal, base64, unicodedata, logging      # noqa: F401,E401  (used lazily by library paths)
-    with contextlib.redirect_stdout(sink), warnings.catch_warnings():
+    with contextlib.redirect_stdout(sink), warnings.catch_warnings(), contextlib.ExitStack() as stack:
         if pymode() == 'Werror':
             # the interpreter configuration "-W error": every warning the library (or anything it
             # calls) emits is raised as an exception at the point where it is emitted
             warnings.simplefilter('error')
+            # ... and the application has switched logging to DEBUG for everything (logging.basicConfig(
+            # level=DEBUG)): every record any logger emits is formatted, by a handler that keeps nothing
+            _dbg = _DebugLogging()
+            stack.enter_context(_dbg)
         dcfg = (plan.get('config') or {}).get('duo')
         if dcfg:
             # a second caller thread runs operations of its own, interleaved with this run at library lines
@@ -134,6 +209,20 @@ def execute_plan(engine, plan, prop, known, keep_trace=False):
                     ctx.violate('%s.concurrent' % prop, 'a second caller thread working on objects of its own got %s for an operation (%s) that gives %s when run alone'
                                 % (_short(x), o['k'], _short(y)), op=o['k'])
                     break
+            scfg = dcfg.get('shared')
+            if scfg:
+                # ... and then the two threads work on ONE pool of objects whose value no operation changes
+                items, recs, sw = duo.run_shared(scfg)
+                if sw:
+                    ctx.fault('shared-object.switches', sw)
+                ctx.probe('shared-object-ops-judged', len(recs))
+                for who, i, op, salt, got, want in recs:
+                    ctx.log(0.0, who, 'shared:%s.%s' % (items[i]['k'], op), i, _short(got))
+                for who, i, op, salt, got, want in recs:
+                    if got != want:
+                        ctx.violate('%s.shared-object' % prop, 'with one %s object used by two caller threads at once, the %s thread got %s for %s where a fresh equal object used alone gives %s'
+                                    % (items[i]['k'], who, _short(got), op, _short(want)), op=op, kind=items[i]['k'], who=who)
+                        break
         else:
             try:
                 engine.execute(plan, ctx)
@@ -163,7 +252,7 @@ class RunSummary:
             self.lines = ctx.lines
 
 
-def in_child(fn, timeout=600, what=''):
+def in_child(fn, timeout=600, what='', _retry=True):
     """Run fn() in a forked child and return its (picklable) result.  The child starts from this
     process's state at fork time; the parent never executes library code itself, so every chunk of
     runs, every minimisation probe and every replay starts from the same pristine state (library
@@ -206,13 +295,22 @@ def in_child(fn, timeout=600, what=''):
                 chunks.append(b)
     finally:
         os.close(r)
+        status = None
         try:
-            os.waitpid(pid, 0)
+            status = os.waitpid(pid, 0)[1]
         except ChildProcessError:
             pass
     data = b''.join(chunks)
     if not data:
-        raise HarnessError('child died without a result (%s)' % what)
+        how = ''
+        if status is not None and os.WIFSIGNALED(status):
+            how = ', killed by signal %d' % os.WTERMSIG(status)
+        elif status is not None:
+            how = ', exit status %d' % os.WEXITSTATUS(status)
+        if _retry and status is not None and os.WIFSIGNALED(status) and os.WTERMSIG(status) == signal.SIGKILL:
+            # killed from outside (the kernel's out-of-memory killer, an operator): once more, on its own
+            return in_child(fn, timeout, what + ' [second attempt after SIGKILL]', _retry=False)
+        raise HarnessError('child died without a result (%s%s)' % (what, how))
     kind, val = pickle.loads(data)
     if kind == 'error':
         raise HarnessError('child failed (%s): %s' % (what, val))
@@ -249,6 +347,22 @@ def plan_for(engine, base, prop, tier, i):
 
 _SYS_CACHE = {}
 
+# properties whose subject depends on the selected chain: besides what the engine lists, a few of the seeded
+# plans are executed in interpreters in which a chain was selected BEFORE the library's modules were loaded
+PRESELECT_PROPS = {'C14': 2, 'C16': 2, 'C18': 4, 'C19': 4}
+PRESELECT_CHAINS = ('testnet', 'signet', 'regtest', 'mainnet')
+
+
+def systematic_plans(engine, prop, tier):
+    plans = list(engine.systematic(prop, tier))
+    base = int(os.environ.get('VERIF_SEED', '20261003' if tier == 'quick' else '7'))
+    for k in range(PRESELECT_PROPS.get(prop, 0)):
+        p = plan_for(engine, base, prop, tier, 7000000 + k)
+        p.setdefault('config', {})['fresh_process'] = {'preselect': PRESELECT_CHAINS[k % 4]}
+        p['config']['systematic'] = 'chain-selected-before-import'
+        plans.append(p)
+    return plans
+
 
 def plan_by_ref(engine, base, prop, tier, ref):
     """ref >= 0: seeded run index; ref < 0: systematic plan number -(ref+1)."""
@@ -256,7 +370,7 @@ def plan_by_ref(engine, base, prop, tier, ref):
         return plan_for(engine, base, prop, tier, ref)
     key = (engine.name, prop, tier)
     if key not in _SYS_CACHE:
-        _SYS_CACHE[key] = engine.systematic(prop, tier)
+        _SYS_CACHE[key] = systematic_plans(engine, prop, tier)
     p = copy.deepcopy(_SYS_CACHE[key][-(ref + 1)])
     p['seed'] = -1
     p['index'] = ref
@@ -514,7 +628,7 @@ def run_check(prop, tier, base_seed=None, budget_s=None, workers=None, runs=None
     print('check %s tier=%s engine=%s base_seed=%d runs<=%d budget=%.0fs workers=%d repo=%s' %
           (prop, tier, engine.name, base_seed, runs, budget_s, workers, os.environ.get('VERIF_REPO', '/repo')), flush=True)
     deadline = t0 + budget_s
-    nsys = 0 if os.environ.get('VERIF_SKIP_SYSTEMATIC') == '1' else len(engine.systematic(prop, tier))
+    nsys = 0 if os.environ.get('VERIF_SKIP_SYSTEMATIC') == '1' else len(systematic_plans(engine, prop, tier))
     chunk = max(1, min(250, runs // (workers * 4) or 1))
     agg = {'runs': 0, 'stats': Counter(), 'shapes': set(), 'nontrivial_shapes': set(), 'carried': 0, 'sim_seconds': 0.0, 'capped': 0,
            'violations': [], 'known_hits': Counter(), 'samples': [], 'determinism_checked': 0, 'steps': 0, 'other_prop': Counter(),
@@ -662,7 +776,7 @@ def run_check(prop, tier, base_seed=None, budget_s=None, workers=None, runs=None
             if nsys > 2000 or mode == 'Threads':
                 env['VERIF_SKIP_SYSTEMATIC'] = '1'
             if mode == 'Threads':
-                env['VERIF_RUNS'] = str(max(40, min(160, runs // 12)))
+                env['VERIF_RUNS'] = str(max(40, min(120, runs // 12)))
             try:
                 pr = subprocess.run([sys.executable, os.path.join(VERIF, 'vf'), 'check', prop, '--tier', tier], capture_output=True, text=True, env=env,
                                     cwd=VERIF, timeout=max(600.0, budget_s))
